@@ -674,6 +674,9 @@ func (s *scen) exec(st *Step) {
 				s.exec(&st.Body[j])
 			}
 		}
+	case "model":
+		// the code-shaped model's prediction for the state just observed (spec -> code conformance; judged by the trace spec)
+		s.emit(J{"k": "model", "w": st.W, "wl": st.Model.WL, "nmarks": st.Model.NMarks, "nwd": st.Model.NWd, "npath": st.Model.NPath})
 	case "recurse":
 		fsnotify.VerifSetRecurse(st.Recurse)
 		s.emit(J{"k": "recurse", "on": st.Recurse})
